@@ -37,6 +37,17 @@ fn is_comparison(e: &Expr) -> bool {
     matches!(e, Expr::Bin(op, _, _) if op.is_relational())
 }
 
+/// An expression built from numeric literals, numeric variables, arithmetic and parentheses only.
+fn numeric_only(e: &Expr) -> bool {
+    match e {
+        Expr::Num(_) => true,
+        Expr::Var(n) => !n.ends_with('$'),
+        Expr::Bin(op, a, b) => !op.is_relational() && numeric_only(a) && numeric_only(b),
+        Expr::Neg(a) | Expr::Paren(a) => numeric_only(a),
+        _ => false,
+    }
+}
+
 fn suffix_of(name: &str) -> char {
     name.chars().last().filter(|c| Ty::from_suffix(*c).is_some()).unwrap_or('!')
 }
@@ -134,7 +145,13 @@ impl Rw {
                 vec![self.b.s(K::Do(nk, Expr::Not(Box::new(Expr::Paren(Box::new(c)))), body))]
             }
             (K::Select { subject, cases, els }, Rule::SelectToIfChain) => {
-                let t = Expr::Var(format!("ZC{}%", id));
+                // the temporary has the subject's own type when the subject is a variable; any other numeric subject is
+                // held in a DOUBLE (every INTEGER, LONG and SINGLE value is a DOUBLE value, so the comparisons are the same)
+                let t = match &subject {
+                    Expr::Var(n) => Expr::Var(format!("ZC{}{}", id, suffix_of(n))),
+                    Expr::Bin(..) | Expr::Paren(_) | Expr::Neg(_) if numeric_only(&subject) => Expr::Var(format!("ZC{}#", id)),
+                    _ => Expr::Var(format!("ZC{}%", id)),
+                };
                 let mut out = vec![self.b.assign(t.clone(), subject)];
                 let mut arms = vec![];
                 for (tests, body) in cases {
